@@ -390,6 +390,13 @@ def lifecycle (t : Step) : Viol :=
          chk (x.state != .running || !x.rep || totalReached x) "a running repeated context was removed before reaching its total"
        | _ => ["context removed outside end-of-block"])
     | some y =>
+      (match t.op with
+       | .endblock _ =>
+         -- C16 / C10: a context that has finished is removed when the expiry of its batch is handled
+         chk (!(t.ok && t.pre.expQ.contains (t.pre.height, c) &&
+                (x.state == .completed || (x.state == .running && (!x.rep || totalReached x)))))
+           "a finished context (killed, one-shot expired or total reached) was not removed at its batch expiry"
+       | _ => []) ++
       chk (x.svc == y.svc && x.cons == y.cons && x.super == y.super && x.rep == y.rep && x.mod == y.mod) "immutable field of a context changed" ++
       chk (y.batch == x.batch || y.batch == x.batch + 1) "batch counter did not stay or advance by one" ++
       chk (y.batch == x.batch || (x.state == .running && (match t.op with | .endblock _ => true | _ => false))) "batch issued for a context that is not running, or outside end-of-block" ++
